@@ -9,21 +9,8 @@ COMMON_NOTE = ("Trusted: Lean 4.33 kernel (axioms audited per theorem: subset of
                "the correspondence harness (harness/corr) which runs model and real code on the same inputs; harness canonicalisation "
                "and lean/SV/Wire.lean. ")
 
-CLAIMS = {
- "C18": dict(
-  text="Proof (Lean 4): `_is_prefix_operation` = reference same-resource relation (isPrefixOp_spec); repaired use_after_free "
-       "reports iff a related DELETE answered 2xx addresses the same resource and the answer is neither 404 nor 5xx "
-       "(uaf_exact_partial, uaf_never_on_404_5xx); ensure_resource_availability reports only under the stated conditions "
-       "(era_sound); the pinned snapshot's variant is refuted by two kernel-checked witnesses. Partial: the theorems are relative "
-       "to find_related yielding the other requests of the scenario tree, which is validated (not proved) on every generated tree "
-       "by the correspondence run and an independent oracle. Tie to code: ~18k real ScenarioRecorder trees per quick run judged by "
-       "the real checks vs the model (exhaustive 3-node scope + random).",
-  note="Modelled, not verified: checks.py use_after_free/ensure_resource_availability/_is_prefix_operation/ResourcePath, "
-       "recorder.find_parent/find_related/find_response, overrides.get_component_diff, transforms.diff. 'Same resource' adopts the "
-       "code base's plural-s tolerance. Path-parameter values compared through str().",
-  technique="Lean 4 theorems over an executable model + differential correspondence against the real checks",
-  design="4/C18"),
-}
+CLAIMS = {p.stem: json.load(open(p)) for p in sorted((ROOT / "claims").glob("C*.json"))}
+HOOK_COMMITS = json.load(open(ROOT / "claims" / "hook_commits.json")) if (ROOT / "claims" / "hook_commits.json").exists() else []
 
 props = [json.loads(l)["id"] for l in open(ROOT / "properties.jsonl")]
 checks, na = [], []
@@ -48,12 +35,24 @@ m = {
  "version": 1,
  "setup_cmd": "cd lean && lake build",
  "hooks": {"guard": "SCHEMATHESIS_VERIF", "enable": "SCHEMATHESIS_VERIF=1 in the environment of the check (set by ./check); "
-           "no rebuild needed: /venv imports /repo/src in place", "baseline_off_cmd": BASE, "source_commits": [], "add_only": True},
+           "no rebuild needed: /venv imports /repo/src in place", "baseline_off_cmd": BASE, "source_commits": HOOK_COMMITS, "add_only": True},
  "engines": [{"name": "lean4-model+correspondence", "path": "lean/ + harness/", "serves_properties": [c["property_id"] for c in checks],
               "kind_free_text": "Lean 4 models/specs/theorems (lake project lean/), Python correspondence + replay harness"}],
  "checks": checks,
  "not_applicable": na,
  "notes": "Entry point ./check <ID> [--tier quick|thorough] [--replay FILE]; seeds via VERIF_SEED. Exit 2 = infrastructure error.",
 }
-json.dump(m, open(ROOT / "MANIFEST.json", "w"), indent=1, ensure_ascii=False)
+import os, tempfile
+def atomic(path, obj):
+    fd, tmp = tempfile.mkstemp(dir=ROOT)
+    with os.fdopen(fd, "w") as f:
+        json.dump(obj, f, indent=1, ensure_ascii=False)
+    os.replace(tmp, path)
+atomic(ROOT / "MANIFEST.json", m)
+findings = []
+for p in sorted((ROOT / "findings").glob("C*.json")):
+    findings += json.load(open(p))
+atomic(ROOT / "known_findings.json", {"_comment": "Merged from findings/C*.json by tools/gen_manifest.py. Genuine defects of /repo found by the "
+    "checks. status=known: recorded, not repaired (printed as KNOWN-FINDING, exit 0). status=fixed: repaired by the named fix: commit; "
+    "suppresses nothing. Never written at run time.", "findings": findings})
 print("claimed:", [c["property_id"] for c in checks])
